@@ -707,12 +707,79 @@ pub fn bclr(
     Ok(())
 }
 
+pub fn blr(
+    control_flow_graph: &mut ControlFlowGraph,
+    _instruction: &capstone::Instr,
+) -> Result<(), Error> {
+    let block_index = {
+        let block = control_flow_graph.new_block()?;
+
+        // the two low-order bits of the target address are ignored
+        block.branch(Expression::and(
+            expr_scalar("lr", 32),
+            expr_const(0xffff_fffc, 32),
+        )?);
+
+        block.index()
+    };
+
+    control_flow_graph.set_entry(block_index)?;
+    control_flow_graph.set_exit(block_index)?;
+
+    Ok(())
+}
+
+pub fn bdnzl(
+    control_flow_graph: &mut ControlFlowGraph,
+    instruction: &capstone::Instr,
+) -> Result<(), Error> {
+    let detail = details(instruction)?;
+
+    let target = expr_const(detail.operands[0].imm() as u32 as u64, 32);
+    let ctr = scalar("ctr", 32);
+
+    // Decrement the CTR, then branch and link if CTR != 0
+    let head_index = {
+        let block = control_flow_graph.new_block()?;
+        block.assign(
+            ctr.clone(),
+            Expression::sub(ctr.clone().into(), expr_const(1, ctr.bits()))?,
+        );
+        block.assign(scalar("lr", 32), expr_const(instruction.address + 4, 32));
+        block.index()
+    };
+
+    let true_index = {
+        let block = control_flow_graph.new_block()?;
+        block.branch(target);
+        block.index()
+    };
+
+    let false_index = { control_flow_graph.new_block()?.index() };
+
+    let true_condition = Expression::cmpneq(ctr.clone().into(), expr_const(0, ctr.bits()))?;
+    let false_condition = Expression::cmpeq(ctr.clone().into(), expr_const(0, ctr.bits()))?;
+
+    control_flow_graph.conditional_edge(head_index, true_index, true_condition)?;
+    control_flow_graph.conditional_edge(head_index, false_index, false_condition)?;
+    control_flow_graph.unconditional_edge(true_index, false_index)?;
+
+    control_flow_graph.set_entry(head_index)?;
+    control_flow_graph.set_exit(false_index)?;
+
+    Ok(())
+}
+
 pub fn bctr(control_flow_graph: &mut ControlFlowGraph, _: &capstone::Instr) -> Result<(), Error> {
     // get operands
     let block_index = {
         let block = control_flow_graph.new_block()?;
 
-        block.branch(expr_scalar("ctr", 32));
+        // the two low-order bits of the target address are ignored
+        block.branch(Expression::and(
+            expr_scalar("ctr", 32),
+            expr_const(0xffff_fffc, 32),
+        )?);
 
         block.index()
     };
